@@ -35,6 +35,18 @@ MANUAL = [
     (r"lib/src/nogoods\.rs:(222|231):le->lt", ("equivalent", "Subsume mode, equal-size bucket: an identical nogood is stored twice, the excluded set is unchanged")),
     (r"lib/src/nogoods\.rs:275:le->lt", ("equivalent", "fewer conclusions drawn; the property demands soundness of conclusions and conflict when the interpretation matches a nogood, both unchanged")),
     (r"lib/src/nogoods\.rs:288:", ("equivalent", "initial value of the update flag of conclusion_closure: overwritten before it is read")),
+    (r"lib/src/datatypes/bdd\.rs:(90|92):", ("gap-closed", "Term::no_inf_inconsistency table added to S.T-term for C04")),
+    (r"bin/src/main\.rs:(205|212):", ("outside", "--counter output: counts of the pre-grounded instead of the submitted conditions; not an interpretation (C15) and each printed count is still exact for the diagram it is taken from (C13)")),
+    (r"bin/src/main\.rs:(213|377):", ("outside", "--counter nai/mem selects the memoised or the naive procedure: under the default features memoised model counts are the documented all-zero exception")),
+    (r"server/src/adf\.rs:424:", ("gap-closed", "C16.F-pair add.hybrid-without-pregrounding (added)")),
+    (r"server/src/adf\.rs:547:", ("outside", "re-solving an already solved strategy recomputes and stores the same answer")),
+    (r"server/src/(adf|config)\.rs:\d+:lock->try_lock", ("gap-closed", "blocking-lock-only (C16.P-running, C17.W-shared; added)")),
+    (r"server/src/(adf|user)\.rs:\d+:(0->1|1->0):", ("outside", "pattern on deleted_count / modified_count selects the HTTP status of the reply only")),
+    (r"server/src/user\.rs:35:", ("outside", "direction of the username index; uniqueness (the property-relevant option) is reported")),
+    (r"lib/src/obdd\.rs:(442|478):gt->ge", ("equivalent", "equal depths: both exponents are 2^0 = 1 on either branch")),
+    (r"server/src/user\.rs:(60|164|285):", ("outside", "input validation of empty names/passwords is not part of C17")),
+    (r"server/src/user\.rs:305:", ("outside", "the rename pre-check is a courtesy: uniqueness is enforced by the unique index (C17.W-shared), the failed replace_one is answered before anything else is written (C17.P-login, C17.P-delete)")),
+    (r"server/src/user\.rs:353:", ("outside", "`temp` in the reply of update_user is informational; what is stored is the hashed password (C17.F-cred)")),
     (r"lib/src/nogoods\.rs:63:", ("equivalent", "try_from_pair_iter: flag initial value; an empty pair iterator cannot occur behind filter_map(conclude) of a non-empty bucket (oracle passes)")),
 ]
 
